@@ -170,13 +170,21 @@ def main(prop, tier, seed, args):
         per_case += ex.get("samples", [])
     # confirm violations
     confirmed = []
+    seen_groups = {}
     for v in violations:
         if isinstance(v, dict):      # already confirmed by the engine (E2 replays natively itself)
             confirmed.append(v)
             continue
         c, g, work, bad = v
+        # one confirmation (solver re-run with concrete playback + native replay) per distinct
+        # (role, failed-check signature); further harnesses with the same signature are listed under it
+        gkey = "%s/%s" % (c.role.split(":")[0], signature(bad[0]))
+        if gkey in seen_groups:
+            seen_groups[gkey].setdefault("also", []).append(c.name)
+            continue
         import replay
         info = replay.confirm(prop, c, g, work, bad, plan)
+        seen_groups[gkey] = info
         if info["status"] == "confirmed":
             confirmed.append(info)
         else:
@@ -213,6 +221,8 @@ def main(prop, tier, seed, args):
         for info in confirmed:
             print("VIOLATION property=%s replay=%s" % (prop, info["path"]))
             print("  " + info.get("summary", ""))
+            if info.get("also"):
+                print("  same failure in %d more harnesses: %s" % (len(info["also"]), ", ".join(info["also"][:8])))
         return 1
     if inconclusive:
         for i in inconclusive[:15]:
